@@ -516,7 +516,9 @@ def origin_call(body, op, *suffixes):
     return None
 
 
-ALIAS_CALLS = ("DerefMut>::deref_mut", "Deref>::deref", "IndexMut<I>>::index_mut", "Index<I>>::index",
+ALIAS_CALLS = ("ops::DerefMut::deref_mut", "ops::Deref::deref", "ops::Index::index", "ops::IndexMut::index_mut",
+               "convert::AsRef::as_ref", "convert::AsMut::as_mut", "borrow::Borrow::borrow", "borrow::BorrowMut::borrow_mut",
+               "DerefMut>::deref_mut", "Deref>::deref", "IndexMut<I>>::index_mut", "Index<I>>::index",
                "IndexMut>::index_mut", "Index>::index", "AsMut>::as_mut", "AsRef>::as_ref", "as_mut_slice", "as_slice",
                "as_bytes", "as_mut", "as_ref", "borrow", "borrow_mut", "Cursor::get_ref", "Cursor::get_mut",
                "Cursor<T>::get_ref", "Cursor<T>::get_mut", "Cursor::into_inner", "Cursor<T>::into_inner",
@@ -545,7 +547,7 @@ def deep_root(body, op_or_place, depth=0):
 
 # ------------------------------------------------------------------ loops
 
-NEXT_CALLS = ("Iterator>::next", "iter::Iterator::next", "DoubleEndedIterator>::next_back")
+NEXT_CALLS = ("Iterator>::next", "iter::Iterator::next", "DoubleEndedIterator>::next_back", "iter::DoubleEndedIterator::next_back")
 
 
 class LoopInfo:
